@@ -54,6 +54,9 @@ CLAIMED = {
     "C18": dict(level="exploration", ref="4/C18", technique="TLA+ stage machine (Pipeline.tla) as trace specification of all public stages run in child processes under a watchdog, on valid programs, TLA+-generated mutation histories (Mutate.tla), a nesting ladder and byte noise",
                 text="Pipeline.tla states the compiler as a machine whose every stage has exactly the outcomes ok and err, with stage dependencies; each input is run through parse, format, type_check, transform, linearize, standardize and solve in a child process (panics, aborts and hangs are observed) and the recorded stage outcomes must be a behaviour of that machine within the time limit.",
                 note="hangs are observable only as the watchdog limit (4 s per stage); memory safety is out of scope; inputs are sampled"),
+    "C06": dict(level="model_checking", ref="4/C06", technique="TLA+ reference semantics of iteration/aggregation constructs (Expand.tla: Envs, Unroll) generating program + unrolled twin; TLA+ trace validation (ExpandTrace) of row-for-row equality of the two real compilations",
+                text="Expand.tla defines the meaning of binders (ranges, inclusive ranges, len, arrays, enumerate, nested arrays, graph nodes and edges with weights, dependent bounds), indexed names, coefficients from data and sum/min/max/avg blocks, and prints for every program of its families the text with constructs and the text it unrolls; both are compiled by the real front end and linearizer and must be equal row for row.",
+                note="data is fixed in the specification; the families are enumerated completely, three-row mixes are simulated"),
 }
 NOT_YET = {}
 ALL = [f"C{i:02d}" for i in range(1, 21)]
